@@ -137,6 +137,48 @@ func runSession(ss session, fail func(kind, what string)) {
 			time.Sleep(5 * time.Millisecond)
 		}
 	}
+	// ---- blocked receivers of every kind; each must return promptly whatever the close route
+	// (the waits below are well under ReadTimeout = 5s, so a receiver that only returns by its timeout is flagged)
+	type receiver struct {
+		name string
+		done chan struct{}
+	}
+	var receivers []receiver
+	block := func(name string, f func()) {
+		rc := receiver{name: name, done: make(chan struct{})}
+		receivers = append(receivers, rc)
+		started := make(chan struct{})
+		go func() {
+			defer close(rc.done)
+			close(started)
+			f()
+		}()
+		<-started
+	}
+	if events := cc.EventChannel(); events != nil {
+		block("for range CqlClientConnection.EventChannel()", func() {
+			for range events {
+			}
+		})
+	}
+	block("CqlClientConnection.ReceiveEvent()", func() { _, _ = cc.ReceiveEvent() })
+	block("CqlServerConnection.Receive() loop", func() {
+		for {
+			if _, err := sc.Receive(); err != nil {
+				return
+			}
+		}
+	})
+	if extra, err := cc.Send(query("hang")); err == nil {
+		pending = append(pending, extra)
+		block("for range InFlightRequest.Incoming()", func() {
+			for range extra.Incoming() {
+			}
+		})
+	} else {
+		fail("harness", "send: "+err.Error())
+	}
+	time.Sleep(20 * time.Millisecond) // let them reach their blocking point
 	// ---- the injected close
 	closeOK := true
 	switch ss.Closer {
@@ -166,7 +208,23 @@ func runSession(ss session, fail func(kind, what string)) {
 		fail("close-hangs", "client connection still open 5s after "+ss.Closer+" close")
 	}
 	if !within(3*time.Second, wg.Wait) {
-		fail("receiver-blocked", fmt.Sprintf("%d of %d receivers still blocked 3s after the %s close", len(pending)-int(atomic.LoadInt32(&returned)), len(pending), ss.Closer))
+		fail("receiver-blocked", fmt.Sprintf("%d receivers in CqlClientConnection.Receive(request) still blocked 3s after the %s close", ss.Pending-int(atomic.LoadInt32(&returned)), ss.Closer))
+	}
+	deadline := time.After(3 * time.Second)
+	for _, rc := range receivers {
+		select {
+		case <-rc.done:
+		case <-deadline:
+			// the deadline is shared: once it has passed, every receiver that is not done is reported
+			select {
+			case <-rc.done:
+			default:
+				fail("receiver-blocked", fmt.Sprintf("close route %s: a goroutine blocked in %s has not returned 3s after the connection was closed (ReadTimeout %v)", ss.Closer, rc.name, clt.ReadTimeout))
+			}
+			expired := make(chan time.Time)
+			close(expired)
+			deadline = expired
+		}
 	}
 	for i, r := range pending {
 		ok := within(2*time.Second, func() {
